@@ -153,3 +153,95 @@ package solver
 //@   ghost A asg
 //@   ensures  id: result.Lits == lits && result.Weights == nil && result.AtLeast == 1
 //@   ensures  equiv: (isum(lits, nil, A, len(lits)) >= 1) <==> cholds(result, A)
+
+// ---------------------------------------------------------------- at-most-one detection (C15)
+
+//@ define inSet(t []int, j int) bool = exists(m, 0, len(t), t[m] == j)
+
+// removeBinaries: exactly the clauses whose index is listed disappear; every other clause is
+// kept (so nothing but the subsumed binaries can be lost), and nothing is invented.
+//@ func (*Problem).removeBinaries
+//@   requires nn:    pb != nil
+//@   requires range: forall(m, 0, len(toRemove), 0 <= toRemove[m] && toRemove[m] < len(pb.Clauses))
+//@   modifies pb.Clauses
+//@   ensures  kept:   forall(j, 0, old(len(pb.Clauses)), !inSet(toRemove, j) ==> exists(k, 0, len(pb.Clauses), pb.Clauses[k] == old(pb.Clauses[j])))
+//@   ensures  subset: forall(k, 0, len(pb.Clauses), exists(j, 0, old(len(pb.Clauses)), pb.Clauses[k] == old(pb.Clauses[j])))
+//@   ensures  gone:   forall(k, 0, len(pb.Clauses), exists(j, 0, old(len(pb.Clauses)), pb.Clauses[k] == old(pb.Clauses[j]) && !inSet(toRemove, j)))
+//@   loop 1
+//@     invariant idx:  0 <= rangei && rangei <= len(toRemove) && len(remove) == len(pb.Clauses) && fresh(remove)
+//@     invariant mark: forall(j, 0, len(remove), remove[j] <==> exists(m, 0, rangei, toRemove[m] == j))
+//@   loop 2
+//@     invariant idx:  0 <= rangei && rangei <= len(pb.Clauses) && len(remove) == len(pb.Clauses) && fresh(newClauses) && pb.Clauses == old(pb.Clauses)
+//@     invariant mark: forall(j, 0, len(remove), remove[j] <==> inSet(toRemove, j))
+//@     invariant kept:   forall(j, 0, rangei, !inSet(toRemove, j) ==> exists(k, 0, len(newClauses), newClauses[k] == pb.Clauses[j]))
+//@     invariant gone:   forall(k, 0, len(newClauses), exists(j, 0, rangei, newClauses[k] == pb.Clauses[j] && !inSet(toRemove, j)))
+//@     invariant cap:    len(newClauses) <= rangei && cap(newClauses) == len(pb.Clauses)
+//@   assert body-end 2 last: !prev(remove[rangei]) ==> len(newClauses) == prev(len(newClauses)) + 1 && newClauses[len(newClauses)-1] == pb.Clauses[prev(rangei)]
+
+// ---------------------------------------------------------------- solver representation (C09)
+
+//@ define WFlen(s *Solver) bool = s.nbVars >= 0 && len(s.model) == s.nbVars && len(s.activity) == s.nbVars && len(s.polarity) == s.nbVars && len(s.reason) == s.nbVars && len(s.assumptions) == s.nbVars && len(s.trailBuf) == s.nbVars && len(s.pbSetBuf) == s.nbVars && len(s.pbSetBuf2) == s.nbVars && len(s.wl.wlistBin) == 2*s.nbVars && len(s.wl.wlist) == 2*s.nbVars && len(s.wl.wlistPb) == 2*s.nbVars && len(s.wl.wlistCardAMO) == 2*s.nbVars
+
+// the per-variable tables of one solver never share a backing array
+//@ define sepB(a []bool, b []bool) bool = arr(a) != arr(b) || cap(a) == 0 || cap(b) == 0
+//@ define sepI(a []int, b []int) bool = arr(a) != arr(b) || cap(a) == 0 || cap(b) == 0
+//@ define WFsep(s *Solver) bool = sepB(s.polarity, s.assumptions) && sepI(s.trailBuf, s.pbSetBuf) && sepI(s.trailBuf, s.pbSetBuf2) && sepI(s.pbSetBuf, s.pbSetBuf2) && (arr(s.model) != arr(s.lastModel) || cap(s.model) == 0 || cap(s.lastModel) == 0)
+
+//@ define WFsepWl(s *Solver) bool = (arr(s.wl.wlistBin) != arr(s.wl.wlist) || cap(s.wl.wlistBin) == 0 || cap(s.wl.wlist) == 0) && (arr(s.wl.wlistPb) != arr(s.wl.wlistCardAMO) || cap(s.wl.wlistPb) == 0 || cap(s.wl.wlistCardAMO) == 0)
+
+//@ func newQueue
+//@   trusted
+//@   ensures act: result.activity == activity && fresh(result.content) && fresh(result.indices)
+
+//@ func (*Solver).addVarWatcherList
+//@   requires wf: s != nil && s.nbVars >= 0 && len(s.wl.wlistBin) == 2*s.nbVars && len(s.wl.wlist) == 2*s.nbVars && len(s.wl.wlistPb) == 2*s.nbVars && len(s.wl.wlistCardAMO) == 2*s.nbVars
+//@   requires v:  v >= 0 && v < 1073741823
+//@   requires sep: WFsepWl(s)
+//@   ensures  sep: WFsepWl(s)
+//@   modifies s.wl.wlistBin, s.wl.wlist, s.wl.wlistPb, s.wl.wlistCardAMO, s.wl.wlistBin[*], s.wl.wlist[*], s.wl.wlistPb[*], s.wl.wlistCardAMO[*]
+//@   ensures  lens: len(s.wl.wlistBin) == 2*maxi(s.nbVars, v+1) && len(s.wl.wlist) == 2*maxi(s.nbVars, v+1) && len(s.wl.wlistPb) == 2*maxi(s.nbVars, v+1) && len(s.wl.wlistCardAMO) == 2*maxi(s.nbVars, v+1)
+//@   ensures  keepBin: forall(k, 0, 2*s.nbVars, s.wl.wlistBin[k] == old(s.wl.wlistBin[k]))
+//@   ensures  keepWl:  forall(k, 0, 2*s.nbVars, s.wl.wlist[k] == old(s.wl.wlist[k]))
+//@   ensures  keepPb:  forall(k, 0, 2*s.nbVars, s.wl.wlistPb[k] == old(s.wl.wlistPb[k]))
+//@   ensures  keepAMO: forall(k, 0, 2*s.nbVars, s.wl.wlistCardAMO[k] == old(s.wl.wlistCardAMO[k]))
+//@   ensures  nilBin: forall(k, 2*s.nbVars, len(s.wl.wlistBin), s.wl.wlistBin[k] == nil)
+//@   ensures  nilWl:  forall(k, 2*s.nbVars, len(s.wl.wlist), s.wl.wlist[k] == nil)
+//@   ensures  nilPb:  forall(k, 2*s.nbVars, len(s.wl.wlistPb), s.wl.wlistPb[k] == nil)
+//@   ensures  nilAMO: forall(k, 2*s.nbVars, len(s.wl.wlistCardAMO), s.wl.wlistCardAMO[k] == nil)
+//@   loop 1
+//@     invariant idx: s.nbVars <= i && (i <= cnfVar || i == s.nbVars) && cnfVar == v + 1
+//@     invariant lens: len(s.wl.wlistBin) == 2*i && len(s.wl.wlist) == 2*i && len(s.wl.wlistPb) == 2*i && len(s.wl.wlistCardAMO) == 2*i
+//@     invariant own:  grown(s.wl.wlistBin) && grown(s.wl.wlist) && grown(s.wl.wlistPb) && grown(s.wl.wlistCardAMO)
+//@     invariant sep:  WFsepWl(s)
+//@     invariant keepBin: forall(k, 0, 2*s.nbVars, s.wl.wlistBin[k] == old(s.wl.wlistBin[k]))
+//@     invariant keepWl:  forall(k, 0, 2*s.nbVars, s.wl.wlist[k] == old(s.wl.wlist[k]))
+//@     invariant keepPb:  forall(k, 0, 2*s.nbVars, s.wl.wlistPb[k] == old(s.wl.wlistPb[k]))
+//@     invariant keepAMO: forall(k, 0, 2*s.nbVars, s.wl.wlistCardAMO[k] == old(s.wl.wlistCardAMO[k]))
+//@     invariant nilBin: forall(k, 2*s.nbVars, len(s.wl.wlistBin), s.wl.wlistBin[k] == nil)
+//@     invariant nilWl:  forall(k, 2*s.nbVars, len(s.wl.wlist), s.wl.wlist[k] == nil)
+//@     invariant nilPb:  forall(k, 2*s.nbVars, len(s.wl.wlistPb), s.wl.wlistPb[k] == nil)
+//@     invariant nilAMO: forall(k, 2*s.nbVars, len(s.wl.wlistCardAMO), s.wl.wlistCardAMO[k] == nil)
+
+// newVar keeps the representation invariant "every per-variable table has nbVars entries".
+//@ func (*Solver).newVar
+//@   requires wf: s != nil && WFlen(s) && WFsep(s) && WFsepWl(s)
+//@   requires v:  v >= 0 && v < 1073741823
+//@   modifies s.model, s.activity, s.polarity, s.reason, s.assumptions, s.trailBuf, s.pbSetBuf, s.pbSetBuf2, s.varQueue, s.nbVars, s.model[*], s.activity[*], s.polarity[*], s.reason[*], s.assumptions[*], s.trailBuf[*], s.pbSetBuf[*], s.pbSetBuf2[*], s.wl.wlistBin, s.wl.wlist, s.wl.wlistPb, s.wl.wlistCardAMO, s.wl.wlistBin[*], s.wl.wlist[*], s.wl.wlistPb[*], s.wl.wlistCardAMO[*]
+//@   ensures  wf:    WFlen(s) && s.nbVars == maxi(old(s.nbVars), v+1)
+//@   ensures  sep:   WFsep(s) && WFsepWl(s)
+//@   ensures  keepM: forall(k, 0, old(s.nbVars), s.model[k] == old(s.model[k]))
+//@   ensures  keepR: forall(k, 0, old(s.nbVars), s.reason[k] == old(s.reason[k]))
+//@   ensures  keepP: forall(k, 0, old(s.nbVars), s.polarity[k] == old(s.polarity[k]))
+//@   ensures  unboundM: forall(k, old(s.nbVars), s.nbVars, s.model[k] == 0)
+//@   ensures  unboundR: forall(k, old(s.nbVars), s.nbVars, s.reason[k] == nil)
+//@   loop 1
+//@     invariant idx:  s.nbVars == old(s.nbVars) && s.nbVars <= i && i <= cnfVar && cnfVar == v + 1
+//@     invariant lens: len(s.model) == i && len(s.activity) == i && len(s.polarity) == i && len(s.reason) == i && len(s.trailBuf) == i && len(s.assumptions) == i && len(s.pbSetBuf) == i && len(s.pbSetBuf2) == i
+//@     invariant sep:  WFsep(s) && WFsepWl(s)
+//@     invariant own:  grown(s.model) && grown(s.activity) && grown(s.polarity) && grown(s.reason) && grown(s.trailBuf) && grown(s.assumptions) && grown(s.pbSetBuf) && grown(s.pbSetBuf2)
+//@     invariant wl:   len(s.wl.wlistBin) == 2*s.nbVars && len(s.wl.wlist) == 2*s.nbVars && len(s.wl.wlistPb) == 2*s.nbVars && len(s.wl.wlistCardAMO) == 2*s.nbVars
+//@     invariant keepM: forall(k, 0, old(s.nbVars), s.model[k] == old(s.model[k]))
+//@     invariant keepR: forall(k, 0, old(s.nbVars), s.reason[k] == old(s.reason[k]))
+//@     invariant keepP: forall(k, 0, old(s.nbVars), s.polarity[k] == old(s.polarity[k]))
+//@     invariant unboundM: forall(k, old(s.nbVars), i, s.model[k] == 0)
+//@     invariant unboundR: forall(k, old(s.nbVars), i, s.reason[k] == nil)
